@@ -18,6 +18,8 @@ pub struct PluginOpts {
     pub yomigana: bool,
     pub mecab: bool,
     pub regex: Option<(String, bool, usize)>,
+    /// "debug": true for the regex provider (it then reports matches that do not start where the provider was asked)
+    pub regex_debug: bool,
     pub join_numeric: Option<bool>,
     pub join_katakana: Option<usize>,
     pub inhibit: Vec<(i16, i16)>,
@@ -45,6 +47,7 @@ impl PluginOpts {
             yomigana: false,
             mecab: false,
             regex: None,
+            regex_debug: false,
             join_numeric: None,
             join_katakana: None,
             inhibit: vec![],
@@ -133,9 +136,13 @@ impl PluginOpts {
             oov.push(json!({"class": format!("{}MeCabOovPlugin", CLS), "charDef": "char.def", "unkDef": "unk.def"}));
         }
         if let Some((re, relaxed, maxlen)) = &self.regex {
-            oov.push(json!({"class": format!("{}RegexOovProvider", CLS), "oovPOS": oov_pos.to_vec(),
+            let mut v = json!({"class": format!("{}RegexOovProvider", CLS), "oovPOS": oov_pos.to_vec(),
                 "leftId": self.simple.0, "rightId": self.simple.1, "cost": self.simple.2 / 2,
-                "regex": re, "maxLength": maxlen, "boundaries": if *relaxed {"relaxed"} else {"strict"}}));
+                "regex": re, "maxLength": maxlen, "boundaries": if *relaxed {"relaxed"} else {"strict"}});
+            if self.regex_debug {
+                v["debug"] = json!(true);
+            }
+            oov.push(v);
         }
         oov.push(env::simple_oov(oov_pos, self.simple.0, self.simple.1, self.simple.2));
         let mut path = vec![];
